@@ -1158,7 +1158,8 @@ func (q Quote) Type() Type        { return QUOTE }
 func (q Quote) Inspect() string {
 	out := strings.Builder{}
 	out.WriteString("quote(")
-	q.Node.PrettyPrint(&ast.PrintState{Out: &out})
+	// Compact: one line, like functions (saved state is read line by line); not the top level: blocks keep their braces.
+	q.Node.PrettyPrint(&ast.PrintState{Out: &out, Compact: true, IndentLevel: 1})
 	out.WriteString(")")
 	return out.String()
 }
